@@ -285,7 +285,9 @@ static void GC_Recurse(struct GC* gc, var ptr);
 
 static void GC_Mark_And_Recurse(void* _gc, void* ptr) {
   struct GC* gc = _gc;
-  GC_Mark_Item(gc, ptr);
+  /* a registered object is marked, and entered once, by GC_Mark_Item;
+  ** only items stored inline in a container are entered here */
+  if (GC_Mem_Ptr(gc, ptr)) { GC_Mark_Item(gc, ptr); return; }
   GC_Recurse(gc, ptr);
 }
 
